@@ -2659,10 +2659,16 @@ def _file_sample_rule(ctx, rid: str, fmt: str) -> RuleResult:
             got_bonds = {}
             bad_key = False
             for key, d in bonds.items():
-                if not (isinstance(key, tuple) and len(key) == 2 and key[0] in posn and key[1] in posn and isinstance(d, dict)):
+                ends_ = tuple(key) if isinstance(key, (tuple, list, frozenset, set)) else None
+                if ends_ is None or len(ends_) != 2 or not isinstance(d, dict):
+                    problems = None          # a bond table of another make: not judged
+                    break
+                if not (ends_[0] in posn and ends_[1] in posn):
                     bad_key = True
                     break
-                got_bonds[frozenset((posn[key[0]], posn[key[1]]))] = d.get(BT)
+                got_bonds[frozenset((posn[ends_[0]], posn[ends_[1]]))] = d.get(BT)
+            if problems is None:
+                break
             if bad_key:
                 problems.append(f"a bond of the bond table {sorted(bonds, key=repr)} does not name two atoms of the atom table {list(atoms)}")
                 continue
@@ -2802,7 +2808,7 @@ def r_listensample(ctx) -> RuleResult:
     ]
 
     def run(atoms, bonds, attrs):
-        src = [f"L = {lis.name}()"] + [f"L.{A}({s_!r}, {n_})" for s_, n_ in atoms] + [f"L.{B}({a_}, {b_})" for a_, b_ in bonds] + [f"L.{P}({i_}, {key0!r}, {v_})" for i_, v_ in attrs]
+        src = [f"L = {lis.name}()"] + [f"L.{A}({s_!r}, {n_})" for s_, n_ in atoms] + [f"L.{B}({a_}, {b_})" for a_, b_ in bonds] + [f"L.{P}({t_[0]}, {(t_[1] if len(t_) == 3 else key0)!r}, {t_[-1]})" for t_ in attrs]
         setup = ast.parse("\n".join(src)).body
         del pe.gaps[:]
         falls, lefts = pe.block(setup, [PState(dict(env))])
@@ -2811,6 +2817,7 @@ def r_listensample(ctx) -> RuleResult:
         falls, lefts = pe.block(ast.parse("g = L.to_graph()").body, falls)
         hows = {how for _s, how, _v in lefts} | ({"return"} if falls else set())
         run.classes = {v_ for _s, how, v_ in lefts if how == "raise"}
+        run.graphs = [s_.env.get("g") for s_ in falls]
         return hows, list(pe.gaps)
     from .parserwiring import _parser_exception
     exc_name = _parser_exception(ctx).name
@@ -2845,6 +2852,54 @@ def r_listensample(ctx) -> RuleResult:
         if bad:
             res.fail(Finding("R-LISTENSAMPLE", tg.module.rel, tg.qualname, f"sample {text}",
                              f"for what the valid string {text!r} stores in the listener to_graph raises on every path: a molecule the grammar admits is rejected", line=tg.node.lineno))
+    # spellings of one molecule: tuples reversed, repeated, reordered, attribute blocks split and reordered.  Every spelling must
+    # give the graph the string denotes: the formula's atoms numbered by rising atomic number (stable), the listed bonds as a
+    # set, the listed attributes on the indexed atoms
+    from ..concrete import SampleGraph
+    const = lambda n_: ctx.repo.const("tucan.graph_attributes", n_)  # noqa: E731
+    SYM_ = const("ELEMENT_SYMBOL")
+    names = ctx.repo.try_const(ctx.repo.module("tucan.parser.parser"), "_DESERIALIZER_NODE_ATTRIBUTE_MAPPING", None)
+    elem = ctx.repo.try_const("tucan.element_attributes", "ELEMENT_ATTRS", None)
+    zkey = const("ATOMIC_NUMBER")
+    if isinstance(names, dict) and len(names) >= 2 and isinstance(elem, dict):
+        k_a, k_b = list(names)[:2]
+        formula = [("C", 1), ("H", 2), ("O", 1)]
+        spellings = [
+            ("CH2O/(1-3)(2-3)(3-4) with attributes on atoms 1 and 4", [(1, 3), (2, 3), (3, 4)], [(1, k_a, 2), (4, k_b, 2), (1, k_b, 3)]),
+            ("the same with tuples reversed, repeated and reordered", [(4, 3), (3, 1), (2, 3), (1, 3)], [(1, k_a, 2), (1, k_b, 3), (4, k_b, 2)]),
+            ("the same with the attribute blocks of atom 1 split around another atom's and reordered", [(1, 3), (2, 3), (3, 4)], [(1, k_b, 3), (4, k_b, 2), (1, k_a, 2)]),
+        ]
+        expanded = [s_ for s_, c_ in formula for _ in range(c_)]
+        order = sorted(range(len(expanded)), key=lambda i_: elem[expanded[i_]][zkey])
+        want_nodes = {new: {SYM_: expanded[old]} for new, old in enumerate(order)}
+        for i_, k_, v_ in spellings[0][2]:
+            want_nodes[i_ - 1][names[k_]] = v_
+        want_edges = {frozenset((a_ - 1, b_ - 1)) for a_, b_ in spellings[0][1]}
+        for what, bonds, attrs in spellings:
+            r_ = run(formula, bonds, attrs)
+            if r_ is None:
+                continue
+            hows, gaps = r_
+            graphs = [g_ for g_ in run.graphs if isinstance(g_, SampleGraph)]
+            if gaps or hows != {"return"} or len(graphs) != len(run.graphs) or not graphs:
+                res.inst(tg.fq, f"spelling: {what}", "ok", detail=f"not judged (paths end in {sorted(hows)}" + (f"; not followed: {gaps[0]}" if gaps else "") + ")")
+                continue
+            n += 1
+            wrong = []
+            for g_ in graphs:
+                got_nodes = {k: {a: v for a, v in d.items() if a == SYM_ or a in names.values()} for k, d in g_._nodes.items()}
+                got_edges = {frozenset((a_, b_)) for a_, b_, _d in g_._edge_list()}
+                if got_nodes != want_nodes:
+                    k_bad = next((k for k in sorted(set(got_nodes) | set(want_nodes), key=repr) if got_nodes.get(k) != want_nodes.get(k)), None)
+                    wrong.append(f"atom {k_bad + 1 if isinstance(k_bad, int) else k_bad} comes out as {got_nodes.get(k_bad)}, the string states {want_nodes.get(k_bad)}")
+                elif got_edges != want_edges:
+                    wrong.append(f"the bonds come out as {sorted(tuple(sorted(e_)) for e_ in got_edges)}, the string states {sorted(tuple(sorted(e_)) for e_ in want_edges)}")
+            bad = len(wrong) == len(graphs)
+            res.inst(tg.fq, f"spelling: {what}", "fail" if bad else "ok", detail=wrong[0] if bad else "")
+            if bad:
+                res.fail(Finding("R-LISTENSAMPLE", tg.module.rel, tg.qualname, f"spelling: {what}",
+                                 f"for what a sample string stores in the listener ({what}; bonds {bonds}, attributes {attrs}) the graph handed back on every path is not the one the string denotes: {wrong[0]}",
+                                 line=tg.node.lineno))
     res.counts = {"samples": n}
     res.trusted = ["the sample evaluator's model of the listener object and of networkx graph construction (concrete.py)"]
     return res
